@@ -593,3 +593,99 @@ func onlyEntryEdge(s, from *ssa.BasicBlock) bool {
 	}
 	return n == 1
 }
+
+// guardsOnAllPaths: the branch conditions that hold on every *consistent* acyclic path from the function's entry to
+// block b — a path is consistent when it does not take one boolean SSA value as true at one `if` and as false at
+// another (`expired := …; if expired && !lazy { return }; …; if expired { stale }`: at "stale" lazy holds, although no
+// single dominating edge says so). Falls back to the dominator-based guardsOf when the function has too many paths.
+// The result includes guardsOf(b).
+func guardsOnAllPaths(b *ssa.BasicBlock) []guard {
+	base := guardsOf(b)
+	fn := b.Parent()
+	if fn == nil || len(fn.Blocks) == 0 {
+		return base
+	}
+	type gk struct {
+		v     ssa.Value
+		truth bool
+	}
+	var common map[gk]guard
+	paths := 0
+	const maxPaths = 4000
+	onPath := map[*ssa.BasicBlock]bool{}
+	assign := map[ssa.Value]bool{}
+	var cur []guard
+	overflow := false
+	var walk func(x *ssa.BasicBlock)
+	walk = func(x *ssa.BasicBlock) {
+		if overflow {
+			return
+		}
+		if x == b {
+			paths++
+			if paths > maxPaths {
+				overflow = true
+				return
+			}
+			set := map[gk]guard{}
+			for _, g := range cur {
+				v, t := g.asBool()
+				set[gk{v, t}] = g
+			}
+			if common == nil {
+				common = set
+			} else {
+				for k := range common {
+					if _, ok := set[k]; !ok {
+						delete(common, k)
+					}
+				}
+			}
+			return
+		}
+		if onPath[x] {
+			return
+		}
+		onPath[x] = true
+		defer func() { onPath[x] = false }()
+		iff, isIf := terminator(x).(*ssa.If)
+		for i, s := range x.Succs {
+			if isIf && x.Succs[0] != x.Succs[1] {
+				g := guard{Cond: iff.Cond, Truth: i == 0, If: iff}
+				v, t := g.asBool()
+				if prev, has := assign[v]; has {
+					if prev != t {
+						continue // inconsistent with an earlier test of the same value
+					}
+					cur = append(cur, g)
+					walk(s)
+					cur = cur[:len(cur)-1]
+					continue
+				}
+				assign[v] = t
+				cur = append(cur, g)
+				walk(s)
+				cur = cur[:len(cur)-1]
+				delete(assign, v)
+				continue
+			}
+			walk(s)
+		}
+	}
+	walk(fn.Blocks[0])
+	if overflow || common == nil {
+		return base
+	}
+	out := append([]guard{}, base...)
+	have := map[gk]bool{}
+	for _, g := range base {
+		v, t := g.asBool()
+		have[gk{v, t}] = true
+	}
+	for k, g := range common {
+		if !have[k] {
+			out = append(out, g)
+		}
+	}
+	return out
+}
